@@ -171,7 +171,7 @@ PROPS["C16"] = dict(
         dict(name="word_runs", run="^TestC16WordRuns$", shards=(2, 3), timeout=(200, 600)),
         dict(name="big_copies", run="^TestC16BigCopies$", shards=(2, 3), timeout=(200, 600)),
         dict(name="huge_copies", run="^TestC16HugeCopies$", enabled=(False, True), shards=1, timeout=(200, 600)),
-        dict(name="collisions", run="^TestC16(Rapid)?Collisions$", checks=(2500, 60000), shards=(1, 4), timeout=(200, 600)),
+        dict(name="collisions", run="^TestC16(Rapid)?Collisions$", checks=(2500, 30000), shards=(1, 4), timeout=(200, 600)),
         dict(name="stack_inputs", run="^TestC16(Rapid)?StackInputs$", checks=(4000, 80000), shards=(1, 4), timeout=(200, 600)),
         dict(name="first_use", run="^TestC16FirstUse$", shards=(2, 8), timeout=(200, 900)),
         dict(name="first_use_race", run="^TestC16FirstUse$", enabled=(False, True), shards=8, timeout=(200, 900), race=(False, True),
